@@ -149,7 +149,9 @@ func viaCLI(r *ev.Run, text string, terr error, in input) {
 	if err != nil {
 		ev.Fatal("%v", err)
 	}
-	res := t.Run("f.g", text, "g", "-out=.")
+	// the flags that do not change what is generated take turns
+	flags := [][]string{{"-out=."}, {"-out=.", "-debug"}, {"-out=.", "-verbose"}, {"-debug", "-verbose", "-out=."}}[(cliCalls/4)%4]
+	res := t.Run("f.g", text, "g", flags...)
 	r.Add("cli_runs", 1)
 	switch {
 	case res.Code == -2:
